@@ -325,8 +325,8 @@ func (w SocialWrappedCallbacks) update(c context.Context, a vocab.ActivityStream
 		for k, v := range newM {
 			m[k] = v
 		}
-		// Delete top-level values where the raw Activity had nils.
-		for k, v := range w.rawActivity {
+		// Delete top-level values where the raw object had nils.
+		for k, v := range rawObjectAt(w.rawActivity, idx) {
 			if _, ok := m[k]; v == nil && ok {
 				delete(m, k)
 			}
@@ -347,6 +347,24 @@ func (w SocialWrappedCallbacks) update(c context.Context, a vocab.ActivityStream
 	}
 	if w.Update != nil {
 		return w.Update(c, a)
+	}
+	return nil
+}
+
+// rawObjectAt returns the value at the given index of the 'object' property in
+// the raw JSON of an activity, if that value is a JSON object.
+func rawObjectAt(raw map[string]interface{}, idx int) map[string]interface{} {
+	switch v := raw["object"].(type) {
+	case map[string]interface{}:
+		if idx == 0 {
+			return v
+		}
+	case []interface{}:
+		if idx < len(v) {
+			if m, ok := v[idx].(map[string]interface{}); ok {
+				return m
+			}
+		}
 	}
 	return nil
 }
